@@ -153,7 +153,35 @@ SPLIT_BATCH = Stage(
     nontrivial=lambda e: True,
 )
 
+MEM = Stage(
+    family="mem",
+    mc={"quick": [("MC_Mem.tla", "MC_Mem.cfg", "pass"), ("MC_Mem.tla", "MC_Mem_nocopy.cfg", "fail"),
+                  ("MC_Mem.tla", "MC_Mem_alias.cfg", "fail")],
+        "thorough": [("MC_Mem.tla", "MC_Mem_t.cfg", "pass"), ("MC_Mem.tla", "MC_Mem_nocopy.cfg", "fail"),
+                     ("MC_Mem.tla", "MC_Mem_alias.cfg", "fail")]},
+    parts={"quick": [("", 4)], "thorough": [("", 8)]},
+    trace=("Trace_Mem.tla", "Trace_Mem.cfg"),
+    nontrivial=lambda e: e.get("ev") != "Start",
+)
+
 CHECKS = {
+    "C12": dict(
+        stages=[MEM],
+        technique="TLA+ ownership model (buffers with owners and content tokens, results, views) (Mem.tla): TLC exhaustive over "
+                  "all short histories + TLC validation of recorded real histories with caller scribbling and snapshot comparison",
+        level_text="TLC explores every history of <=6 (thorough 8) encode/decode/scribble/frame-view operations with 2 pooled "
+                   "buffers and <=3 live results: no step changes a result the caller did not overwrite itself, except views; "
+                   "'encoder hands out the pooled buffer' and 'decoder keeps referring to its input' are negative configurations "
+                   "(TLC produces decode, scribble input, observe change).  Real histories (encode, decode, String, split, UCS-2 "
+                   "helper, zero-copy frame extractor + decoder + reader refill, over all PDU types) are executed with the input "
+                   "buffer overwritten after every decode and every returned output overwritten up to its capacity; after every "
+                   "step every live result is compared with its snapshot and TLC checks the changed set against what the model "
+                   "allows, and each result against an independent reference computation",
+        level_note="aliasing that is never written through is invisible (and harmless to the property as stated); at most 10 "
+                   "results are kept live per history",
+        rule="history = sequence of events (one per library call or caller scribble); distinct = distinct events",
+        assumptions=["deep snapshots through the reflection projector", "scripted ConnReader compacts its buffer on arrival like bufio"],
+    ),
     "C09": dict(
         stages=[BATCH, SPLIT_BATCH],
         technique="TLA+ state machine of Build (candidate set, per-candidate goroutines, filter, UCS-2 fallback, unstable sort as "
